@@ -276,7 +276,8 @@ func validate(ver int, js []byte) (ev event) {
 			ev["stage"], ev["err"] = "load", trunc(err.Error())
 			return ev
 		}
-		if err := doc.Validate(context.Background()); err != nil {
+		// (examples SHOULD match their schema, they need not: not part of validity)
+		if err := doc.Validate(context.Background(), openapi3.DisableExamplesValidation()); err != nil {
 			ev["stage"], ev["err"] = "validate", trunc(err.Error())
 			return ev
 		}
@@ -293,7 +294,7 @@ func validate(ver int, js []byte) (ev event) {
 		ev["stage"], ev["err"] = "convert", trunc(err.Error())
 		return ev
 	}
-	if err := d3.Validate(context.Background()); err != nil {
+	if err := d3.Validate(context.Background(), openapi3.DisableExamplesValidation()); err != nil {
 		ev["stage"], ev["err"] = "validate", trunc(err.Error())
 		return ev
 	}
